@@ -359,6 +359,8 @@ def handle (fs : List String) : String :=
     match findPat p with
     | none => "?nopattern"
     | some (r, _, _) => (PyVal.strs (r.split (decText t))).render
+  | ["rx.safe"] =>
+    "{" ++ ", ".intercalate (Gen.patterns.map (fun p => "\"" ++ p.1 ++ "\": " ++ (if p.2.1.safe then "true" else "false"))) ++ "}"
   | ["str.lower", t] => (PyVal.str (pyLower (decText t))).render
   | ["str.upper", t] => (PyVal.str (pyUpper (decText t))).render
   | ["str.strip", t] => (PyVal.str (pyStrip (decText t))).render
